@@ -1,3 +1,58 @@
-import ViaProofs.Statements
+import ViaProofs.ConnLemmas
+import ViaProofs.C13
+import ViaProofs.C08
+/-
+  C04 — every message written to the wire is well-formed, correctly framed HTTP/1.1.
+
+  Theorems about the encoders and the send paths of the model (the grammar oracle of the check judges the bytes the
+  REAL code wrote):
+  * `C04_head_shape`     (= C13) a response head the library agrees to send is a sequence of non-empty CRLF/LF
+                         terminated lines followed by exactly one empty line;
+  * `C04_refused`        a response whose header block is not valid is refused and nothing is written;
+  * `C04_framing_added`  unless the application's header string already mentions a framing header, a response whose
+                         status permits a body carries `Content-Length: <size>` immediately before the empty line;
+  * `C04_chunk_wire`     `send_chunk` hands the adaptor exactly: chunk header (hex size, optional extension, CRLF),
+                         the data, CRLF — two bytes, not the three of the unrepaired `buffer(CRLF)`;
+  * `C04_chunk_header_parses` (= C08) that chunk header is accepted by the library's own chunk parser with the same size.
+  Known finding C04-KF1: the framing headers are detected by case-sensitive substring search.
+-/
 namespace Via
+open Sim
+
+theorem C04_head_shape : C13_statement := C13
+
+theorem C04_refused (fuel : Nat) (w : World) (i : Nat) (status : Int) (reason hs body : Bytes) (ovl : Nat)
+    (h : headersValid hs = false) : httpSend fuel w i status reason hs body ovl = (w, false) :=
+  httpSend_refused fuel w i status reason hs body ovl h
+
+theorem C04_framing_added (maj min : Byte) (status : Int) (reason hs : Bytes) (n : Nat)
+    (hneed : Enc.needsContentLength hs = true) (hperm : Enc.contentPermitted status = true) :
+    Enc.txResponseMessage maj min status reason hs n =
+      Enc.responseLine maj min status reason ++ hs ++ Enc.contentLengthHeader n ++ [13, 10] := by
+  have hcr : Enc.crlf = [13, 10] := by decide
+  unfold Enc.txResponseMessage
+  simp [hneed, hperm, hcr]
+
+/-- no Content-Length is invented for 1xx / 204 / 304 -/
+theorem C04_no_framing_when_no_content (maj min : Byte) (status : Int) (reason hs : Bytes) (n : Nat)
+    (hperm : Enc.contentPermitted status = false) :
+    Enc.txResponseMessage maj min status reason hs n = Enc.responseLine maj min status reason ++ hs ++ [13, 10] := by
+  have hcr : Enc.crlf = [13, 10] := by decide
+  unfold Enc.txResponseMessage
+  simp [hperm, hcr]
+
+/-- what `send_chunk` hands to the adaptor, resolved when the write completes -/
+theorem C04_chunk_wire (c : Conn) (d ext : Bytes) :
+    bufsBytes { c with txHeader := Enc.chunkHeader d.length ext, txBody := d } [.hdr, .body, .lit [13, 10]] =
+      Enc.chunkHeader d.length ext ++ d ++ [13, 10] := by
+  simp [bufsBytes, bufBytes]
+
+theorem C04_chunk_header_parses (cfg : Cfg) (n : Nat) (ext : Bytes)
+    (hn : n ≤ cfg.maxChunk) (hmax : n ≤ LONG_MAX) (hsz : Gen.maxSizeDigits = 16)
+    (hext : ∀ c ∈ ext, isEol c = false) (hlead : ∀ c, ext.head? = some c → isBlank c = false)
+    (hws : 1 ≤ cfg.maxWs) (hline : (Enc.chunkHeader n ext).length ≤ cfg.maxLine) :
+    let r := CH.parse cfg {} (Enc.chunkHeader n ext)
+    r.2.2 = true ∧ r.2.1 = [] ∧ r.1.size = n ∧ r.1.ext = ext :=
+  chunk_header_roundtrip cfg n ext hn hmax hsz hext hlead hws hline
+
 end Via
